@@ -1171,6 +1171,11 @@ class System:
         # but keep it just in case.
         if ob.kind is None:
             return PrivacyClass.HIDDEN
+
+        if ob.parent is not None and any(ob is o for o in ob.parent._superseded):
+            # An earlier definition superseded by a later one of the same name is not presented 
+            # anywhere: nothing (an index, the search, the inventory) should lead to it.
+            return PrivacyClass.HIDDEN
         
         privacy = PrivacyClass.PUBLIC
         if ob.name.startswith('_') and \
